@@ -845,6 +845,11 @@ func (g *gen) program() (string, []srcModule) {
 			"log(\x01fy\x023\x03, \x042\x02fy\x02" + g.expr(tInt, 1) + "\x03)\n")
 	}
 	if g.cfg.CallMark && g.t.Bool(1, 2) {
+		// callees that are not compiled functions: a builtin and a host function go through Invoker.invokeObject
+		g.addTop("log(\x01len\x02[1, 2, " + g.expr(tInt, 1) + "]\x03, \x01typeName\x02" + g.expr(tAny, 1) + "\x03, \x01string\x02" + g.expr(tInt, 1) + "\x03)\n" +
+			"try { log(\x01choose\x022\x03) } catch e { log(e.Message) }\n")
+	}
+	if g.cfg.CallMark && g.t.Bool(1, 2) {
 		// a batch on one handle in which some items fail and later ones must still succeed
 		bad := g.t.Draw(4)
 		g.addTop(fmt.Sprintf("ze := 0\nfe := func(x) { if x == %d { throw \"bad item\" }; ze += x; return ze }\nlog(\x05fe\x020, 1, 2, 3, %d\x03, ze)\n", bad, g.t.Draw(4)))
